@@ -118,10 +118,10 @@ Amort(g, st, i, outc, s, calls) ==
   IF i > Len(st.mK) THEN [st |-> st, raised |-> "none", calls |-> calls]
   ELSE LET b == st.mK[i]
            n == g.nf[b]
-           bad == st.poison[b] \/ outc[b].inf
+           bad == st.poison[b]
        IN IF bad /\ n >= 1
           THEN \* factor matrix contains NaN/Inf: PreconditionerValueError before the routine is called
-               [st |-> [st EXCEPT !.poison[b] = TRUE], raised |-> "value", calls |-> calls]
+               [st |-> st, raised |-> "value", calls |-> calls]
           ELSE
           LET nanAt == {k \in 1..n : outc[b].f[k] = "nan"}
               firstNan == IF nanAt = {} THEN n + 1 ELSE CHOOSE k \in nanAt : \A j \in nanAt : k <= j
@@ -175,7 +175,10 @@ GroupStep(g, st0, present, outc) ==
      IN IF ~lenK
         THEN [st |-> stB, raised |-> "len", stepped |-> TRUE, obs |-> mkobs(stB, TRUE, refresh, usegraft, <<>>, "len")]
         ELSE
-        LET stC == [stB EXCEPT !.facN = Cnt(@, stB.mK), !.kSrc = Into(@, stB.mK, gl)]
+        LET \* a non-finite gradient poisons the factor matrices at accumulation time, whether or not the block's
+            \* refresh is reached in this call
+            stC == [stB EXCEPT !.facN = Cnt(@, stB.mK), !.kSrc = Into(@, stB.mK, gl),
+                               !.poison = [b \in DOMAIN @ |-> @[b] \/ (\E i \in 1..n : stB.mK[i] = b /\ outc[gl[i]].inf /\ g.nf[b] >= 1)]]
             am  == IF refresh THEN Amort(g, stC, 1, outc, s, <<>>) ELSE [st |-> stC, raised |-> "none", calls |-> <<>>]
         IN IF am.raised # "none"
            THEN [st |-> am.st, raised |-> am.raised, stepped |-> TRUE,
